@@ -942,6 +942,24 @@ func TestC07(t *testing.T) {
 		}
 	}
 	ef.done(thorough())
+	// hostile lines: every line of the list put in front of every line of the small GenBank files (what the rapid
+	// mutator does at one random place), LF and CRLF
+	ehl := enumPart(t, c07Prop, st, "hostile-lines")
+	for _, name := range []string{"NC_001422_part.gb", "pBAT5.txt", "NC_000913.3.min.gb"} {
+		lines := strings.SplitAfter(string(corpusFile(name)), "\n")
+		for i := range lines {
+			if !thorough() && i%2 == 1 && i > 40 {
+				continue
+			}
+			for k, h := range c07Hostile {
+				text := strings.Join(lines[:i], "") + h + "\n" + strings.Join(lines[i:], "")
+				if !ehl.try(c07Case{Target: "scan", Input: []byte(text), CRLF: (i+k)%4 == 0, How: "hostile-line", Trunc: -1}) {
+					return
+				}
+			}
+		}
+	}
+	ehl.done(thorough())
 	// declared lengths out of all proportion to the input (each is read in a child process first, see c07ScanInChild)
 	eh := enumPart(t, c07Prop, st, "huge-declared-lengths")
 	for _, n := range []int{1<<26 + 1, 1 << 28, 1 << 30, 3 << 30, 10000000000, 1 << 36, 1 << 40, 230000000000000, 1000000000000000, 4000000000000000000, 9223372036854775806} {
